@@ -67,6 +67,13 @@ Technique (numbers = the ALLOWED devices of RULES_GUIDE.md "What counts as stati
       stored value can come from classify it as mutable - a list / dict / set display or constructor, a concatenation of
       those - or immutable - constants, str / bytes / int / tuple / frozenset constructors, string methods, digests).
       Trusted library fact: functools.lru_cache / functools.cache return the SAME object for equal arguments.
+  R12 3 (path-wise value flow of BeaconConfig.settings_map with ONE symbolic record standing for an arbitrary member of
+      self.settings_tuple: its bytes are a symbolic complete byte string of the declared width, the loop body is analysed
+      once; the term stored in the returned mapping - looked for inside the returned term, a pretty-table entry applied to
+      one argument is looked through - is compared structurally with dec(bytes, big, unsigned) over all of the bytes
+      / with the bytes themselves), 5 (one run per value-carrying member of the enum SettingsType of CS_DEF and per
+      setting of the two boolean view flags parse / pretty), 2, 6 (format strings of struct.unpack / struct.Struct and
+      module-level tables folded).  Lemma F0.
 
 Lemmas (each used by a transfer rule below; anything else about an assumed or symbolic value stays undecided)
   D1  a 1-byte string decodes to the same integer in both byte orders (nothing to reorder).
@@ -98,6 +105,10 @@ Lemmas (each used by a transfer rule below; anything else about an assumed or sy
   O0  a dict keeps the position of the first insertion of each distinct key (and the last value assigned to it);
       iterating it / .keys() yields the keys, .values() one value per distinct key; dict.fromkeys(it) / dict(pairs)
       insert in iteration order; `if x not in acc: acc.append(x)` keeps the first occurrence of every distinct x.
+  F0  for w >= 1 bytes: the signed and the unsigned big-endian decoding differ exactly on the values with the top bit set
+      (D2 and its converse), for w >= 2 the big- and the little-endian decoding differ on some value, a decode of a proper
+      part of the bytes ignores the rest; a decode of MORE bytes than the string has (data[:4] of 2 bytes) is the decode of
+      the string.  Values with the top bit set are well-formed (port 50050, watermark 0xDEADBEEF, address 192.168.1.1).
   C0  latin-1 (aliases iso-8859-1, l1, cp819, ...) is the codec that maps every byte 0..255 to exactly one character, so
       decoding never drops or merges bytes; ascii / utf-8 with "ignore" and the Windows code pages do not.
 """
@@ -151,14 +162,22 @@ def run(ctx):
         "decoder returns exactly the window (offset 2, length L - 4) of the data, L the big-endian unsigned 16-bit prefix at "
         "offset 0 (stream reads and slices brought to one window normal form, lengths compared as linear forms); every decoder a "
         "pretty-function entry refers to returns a value of its own: a mutable result (list of steps) is not kept by a memoising "
-        "decorator / wrapper, a module-level object, a global, a function attribute or a mutable default argument and handed out again."
+        "decorator / wrapper, a module-level object, a global, a function attribute or a mutable default argument and handed out again. "
+        "Fixed-size settings: settings_map is walked with one symbolic record standing for an arbitrary member of settings_tuple (one run per "
+        "member TYPE_SHORT / TYPE_INT / TYPE_PTR of SettingsType and per setting of the flags parse / pretty); the term stored in the returned "
+        "mapping - and handed to the record's pretty function - must be the unsigned big-endian integer over all 2 / 4 bytes of the value "
+        "(whatever spells the decode: u16be, int.from_bytes, struct.unpack, a precompiled struct.Struct from a table keyed by the type), for "
+        "TYPE_PTR the bytes themselves."
     )
     rep.not_decided = ["decoded byte arguments for all programs", "parse_gargle endianness (no independent reference)", "killdate formatting, IPv4 rendering", "whether domains / uris are de-duplicated at all (only by which member)",
                        "a signed decode of the frame-header length prefix (undecided)",
                        "any test on an assumed or symbolic value that the lemmas of the module docstring do not decide (the obligation is then undecided)",
                        "BeaconGate: a test on the option set other than a comparison with a constant set, its truth or its size (R5 undecided)",
                        "R11: retention of a decoded value through channels other than decorators, module-level wrappers, stores into / loads from non-local names (e.g. caches kept inside BeaconConfig instances, which are per object); a retained value whose mutability is not known is undecided",
-                       "lists that a loop both modifies and inspects; scalars re-bound in a loop (unknown; obligations depending on them are undecided)"]
+                       "lists that a loop both modifies and inspects; scalars re-bound in a loop (unknown; obligations depending on them are undecided)",
+                       "R12: a fixed-size value computed by anything but a decode of the record's bytes (arithmetic on a decode, a mask, reversed bytes ...) is undecided; "
+                       "settings_map walking something other than self.settings_tuple, or filling the mapping through update() / setdefault(), is undecided; "
+                       "views with parse and pretty both off are not looked at (raw views: property C02)"]
     rep.trusted_base = ["CPython ast", "C-definition parser", "reference opcode tables in csverif/tables.py and _BUILD_SELECTORS (rules/c03.py)",
                         "installed dissect.cstruct sources under /venv",
                         "the value-flow model of the Python operations used by the parsers (io.BytesIO.read/tell, int.from_bytes, struct.unpack formats, "
@@ -181,7 +200,11 @@ def run(ctx):
                         "lemma C0: latin-1 (and its aliases) maps every byte to exactly one character",
                         "lemma W0: byte windows - slices with non-negative in-range bounds, x[:-k], nested slices and complete stream reads denote (offset, length) windows of the data",
                         "lemma O0: dicts keep first-insertion order of distinct keys; `if x not in acc: acc.append(x)` keeps first occurrences",
-                        "frame header format (property statement): u16be L, L - 4 header bytes, 4-byte frame-size placeholder; a well-formed L is >= 4"]
+                        "frame header format (property statement): u16be L, L - 4 header bytes, 4-byte frame-size placeholder; a well-formed L is >= 4",
+                        "settings block format: a TYPE_SHORT / TYPE_INT value is 2 / 4 bytes, network byte order, unsigned (_FIXED_WIDTH in rules/c03.py); a TYPE_PTR value is `length` raw bytes; "
+                        "the value of a well-formed fixed-size record has exactly the declared width",
+                        "lemma F0: signed / unsigned decodings differ exactly on values with the top bit set, big / little-endian decodings of >= 2 bytes differ, a decode of a proper part ignores the rest",
+                        "struct.Struct(fmt).unpack(x) is struct.unpack(fmt, x); collections.OrderedDict is an insertion-ordered dict (library semantics)"]
     rep.exhaustive = True
     r1(ctx)
     r2(ctx)
@@ -194,6 +217,7 @@ def run(ctx):
     r9(ctx)
     r10(ctx)
     r11(ctx)
+    r12(ctx)
 
 
 def r1(ctx):
@@ -1681,6 +1705,15 @@ class _Ev:
                 s = self.ctx.rs.lookup_dotted(base.a.split(".")[0], base.a.split(".", 1)[1] + "." + attr)
                 v = self._sym_value(s, st, 0) if s is not None else None
                 return v if v is not None else _T("attr", (base, attr))
+            if base.kind == "structobj":
+                if attr == "format":
+                    return base.a
+                if attr == "size":
+                    try:
+                        return _PURE_EXT["struct.calcsize"](base.a)  # constant folding of the code's format string
+                    except Exception:
+                        return _T("attr", (base, attr))
+                return _Fn("bmeth", base, attr)
             return _T("attr", (base, attr))
         if isinstance(base, _EnT):
             for n, v in self.enum_of(base).members:
@@ -2097,6 +2130,11 @@ class _Ev:
             if name == "tuple":
                 return tuple(seq)
             return _T("seq", tuple(seq))
+        if name == "struct.Struct" and len(args) == 1 and isinstance(a0, (str, bytes)) and not kwargs:
+            # a precompiled format: the object is its (constant) format string, struct.Struct(fmt).unpack == struct.unpack(fmt, .)
+            return _Fn("structobj", a0.decode("ascii", "replace") if isinstance(a0, bytes) else a0)
+        if name in ("collections.OrderedDict", "OrderedDict"):
+            name = "dict"  # an insertion-ordered mapping, like every dict (lemma O0)
         if name == "dict":
             if not args and not kwargs:
                 return st.alloc(node, _HDict(), "dict")
@@ -2211,6 +2249,11 @@ class _Ev:
 
     def call_method(self, recv, attr, args, kwargs, st, node):
         a0 = args[0] if args else None
+        if isinstance(recv, _Fn) and recv.kind == "structobj" and attr in ("unpack", "unpack_from") and len(args) == 1 and not kwargs \
+                and isinstance(a0, _Rd) and isinstance(a0.n, int):
+            r = self.struct_unpack(recv.a, a0, st, exact=attr == "unpack")
+            if r is not None:
+                return r
         if isinstance(recv, _Ref):
             o = st.heap.get(recv.oid)
             if isinstance(o, _HStream):
@@ -2452,16 +2495,17 @@ def _show(d, depth=0):
     return "<?>"
 
 
-def _run(ctx, f, assume=None, args=None):
-    """([paths], None) or ([], reason the evaluation stopped)"""
-    ev = _Ev(ctx, assume)
+def _run(ctx, f, assume=None, args=None, make=None):
+    """([paths], None) or ([], reason the evaluation stopped); make: the evaluator class / factory (default `_Ev`)"""
+    make = make or _Ev
+    ev = make(ctx, assume)
     try:
         res = ev.run(f, args)
         # A list carried around the loop that some path modifies and some path inspects: what it holds from earlier
         # iterations is not known.  Second pass with those lists' inspections answered symbolically.
         mutated = set().union(*(st.mutated for st, _sig in res)) if res else set()
         if any(st.queried & mutated for st, _sig in res):
-            ev = _Ev(ctx, assume)
+            ev = make(ctx, assume)
             ev.unknown_roots = frozenset(mutated)
             res = ev.run(f, args)
             more = set().union(*(st.mutated for st, _sig in res)) if res else set()
@@ -4398,3 +4442,175 @@ def r11(ctx):
             ctx.undecided("R11", "ALIAS", f, text, f"{how} may keep the decoded value; whether that value can be modified in place is not known", node)
         else:
             ctx.ob("R11", "ALIAS", f, text, True, f"the decoded value is kept beyond the call ({verdicts[0][2]}) but cannot be modified in place", f.node)
+
+
+# ----------------------------------------------------------------------------------------------- R12
+# Fixed-size settings.  A TYPE_SHORT / TYPE_INT record carries its value as 2 / 4 bytes in network byte order, unsigned
+# (port 0..65535, watermark / sleep time / kill date 0..2**32-1, the DNS idle address as an IPv4 number): the value that
+# BeaconConfig.settings_map stores for such a record - and hands to the record's pretty function - must be exactly that
+# integer, and the value of a TYPE_PTR record the record's bytes (what the decoders of R2-R10 are applied to).  The
+# method is walked by the path-wise value flow with ONE symbolic record standing for an arbitrary member of
+# self.settings_tuple (device 3: the record's bytes are a symbolic, complete byte string of the declared width, the
+# loop body is analysed once); one run per value-carrying member of the enum SettingsType of CS_DEF and per setting of
+# the two boolean view flags (device 5).  What is compared is the TERM stored in the returned mapping: dec(bytes,
+# byteorder, signed) whatever spelled the decode (u16be, int.from_bytes, struct.unpack, a precompiled struct.Struct
+# looked up in a table keyed by the record type ...).  Lemma D2 read backwards: the signed and the unsigned decoding of w
+# bytes differ exactly when the top bit is set, which a well-formed value may have.
+_SM = "beacon.BeaconConfig.settings_map"
+_FIXED_WIDTH = {"TYPE_SHORT": 2, "TYPE_INT": 4, "TYPE_PTR": None}  # reference (Beacon settings block): width in bytes of the integer; None: raw bytes
+
+
+class _EvRecord(_Ev):
+    """`_Ev` for a method of BeaconConfig that walks self.settings_tuple: the tuple is represented by one symbolic record
+    (an arbitrary member) whose `type` is the enum member of the run, whose `value` is a symbolic complete byte string of
+    `width` bytes (of `length` bytes when the width is not fixed) and whose other fields are opaque.  A store into a
+    mapping under a key that is not known (the record's index / name) is kept as a pair of that mapping."""
+
+    def __init__(self, ctx, assume, f, rtype, width):
+        super().__init__(ctx, assume)
+        self.owner = f
+        self.me = _Par(params(f.node)[0])
+        self.record = _Par("<setting>")
+        self.rtype = rtype
+        self.value = _Rd(0, width if width is not None else _T("field", (self.record, "length")), 0)
+
+    def getattr(self, base, attr, st, node):
+        if base == self.me and attr == "settings_tuple":
+            return (self.record,)
+        if base == self.record and attr in ("type", "value", "length"):
+            return {"type": self.rtype, "value": self.value, "length": self.value.n}[attr]
+        return super().getattr(base, attr, st, node)
+
+    def assign(self, t, v, st):
+        if isinstance(t, ast.Subscript) and not isinstance(t.slice, ast.Slice) and isinstance(t.value, ast.Name):
+            base = self.lookup(t.value.id, st)
+            o = st.heap.get(base.oid) if isinstance(base, _Ref) else None
+            if isinstance(o, _HDict):
+                key = self.ev(t.slice, st)
+                if not self.hashable_known(key):
+                    self.guard_mut(st, base.oid)
+                    o.pairs.append([key, v])
+                    return
+                for p in o.pairs:
+                    if self.key_eq(p[0], key) is True:
+                        p[1] = v
+                        return
+                o.pairs.append([key, v])
+                return
+        super().assign(t, v, st)
+
+    def call_method(self, recv, attr, args, kwargs, st, node):
+        if recv == self.me and self.owner.cls is not None:
+            fq = f"{self.owner.module.name}.{self.owner.cls}.{attr}"
+            if self.ctx.repo.has_func(fq):
+                return self.call_func(self.ctx.repo.func(fq), [recv] + list(args), kwargs, st, node)
+        return super().call_method(recv, attr, args, kwargs, st, node)
+
+
+def _stored_values_of(p):
+    """The values of the mapping(s) a path of settings_map returns (looked for inside the returned term: the mapping
+    itself, or a read-only / ordered wrapper around it); None when no mapping is found there."""
+    found, seen = [], set()
+
+    def walk(v, depth=0):
+        if depth > 12:
+            return
+        if isinstance(v, _Ref):
+            o = p.st.heap.get(v.oid)
+            if isinstance(o, _HDict) and v.oid not in seen:
+                seen.add(v.oid)
+                found.append(o)
+        elif isinstance(v, _T):
+            for a in v.args:
+                walk(a, depth + 1)
+        elif isinstance(v, tuple):
+            for a in v:
+                walk(a, depth + 1)
+
+    walk(p.value)
+    if not found:
+        return None
+    return [val for o in found for _k, val in o.pairs]
+
+
+def _fixed_value(v, rd):
+    """What a stored value is, as a function of the record's bytes `rd`: ('int', byteorder, signed, over all of the
+    bytes?) | ('raw',) | None (something the rule does not understand).  An entry of a lookup table applied to one
+    argument (the record's pretty function: TABLE.get(k)(x) / TABLE[k](x)) is looked through: the argument is judged."""
+    while isinstance(v, _T) and v.op == "call" and len(v.args) == 2 and isinstance(v.args[0], _T) and v.args[0].op in ("get", "getitem"):
+        v = v.args[1]
+    if v == rd:
+        return ("raw",)
+    if isinstance(v, _T) and v.op == "dec" and len(v.args) == 3:
+        base, lo, hi = v.args[0], 0, None
+        if isinstance(base, _T) and base.op == "slice" and len(base.args) == 3:
+            base, lo, hi = base.args
+        if base == rd and isinstance(v.args[1], str):
+            whole = lo == 0 and (hi is None or (isinstance(rd.n, int) and isinstance(hi, int) and hi >= rd.n))
+            return ("int", v.args[1], bool(v.args[2]), whole)
+    return None
+
+
+def r12(ctx):
+    f = ctx.repo.func(_SM)
+    members = dict(ctx.cdefs("beacon")["cs_struct"].enum("SettingsType").members)
+    flags = ("parse", "pretty")
+    n_paths = 0
+    for name, width in _FIXED_WIDTH.items():
+        text = f"{name} value: " + (f"unsigned {8 * width}-bit big-endian integer of the record's bytes" if width else "the record's bytes")
+        if name not in members or any(p not in params(f.node) for p in flags):
+            ctx.undecided("R12", "AGREE", f, text, f"SettingsType.{name} / the view flags {flags} of settings_map could not be located", f.node)
+            continue
+        rtype = _En("SettingsType", name, members[name])
+        bad, unsure, good = [], [], 0
+        for parse, pretty in ((True, False), (False, True), (True, True)):
+            case = f"parse={parse}, pretty={pretty}"
+            holder = []
+
+            def make(c, a, rtype=rtype, width=width, holder=holder):
+                ev = _EvRecord(c, a, f, rtype, width)
+                holder.append(ev)
+                return ev
+
+            paths, stop = _run(ctx, f, None, {"parse": parse, "pretty": pretty}, make=make)
+            if stop is not None:
+                unsure.append(f"{case}: evaluation stopped: {stop}")
+                continue
+            rd, rec = holder[-1].value, holder[-1].record
+            known = {("par", rec.name), ("par", "index_type"), ("rd", 0)}
+            for p in paths:
+                if p.end != "return":
+                    continue
+                vals = _stored_values_of(p)
+                if not vals:
+                    unsure.append(f"{case}: the mapping that settings_map returns, or the value stored in it for a record, could not be located")
+                    continue
+                # a decision of the path about anything but the record and the kind of key: the case is not the one asked about
+                foreign = p.imprecise or any(not (_deps(core) <= known) for _n, core, _pol, _d2 in p.st.forks)
+                for v in vals:
+                    n_paths += 1
+                    got = _fixed_value(v, rd)
+                    if got is None:
+                        unsure.append(f"{case}: the stored value {_show(_d(v))} is not a decode of the record's bytes that the rule understands")
+                    elif width is None:
+                        if got == ("raw",):
+                            good += 1
+                        else:
+                            (unsure if foreign else bad).append(f"{case}: the bytes of a {name} record are converted to an integer ({got[1]}-endian) instead of being kept / handed to the pretty function")
+                    elif got == ("raw",):
+                        (unsure if foreign else bad).append(f"{case}: the bytes of a {name} record are stored / handed to the pretty function unconverted")
+                    elif got == ("int", "big", False, True):
+                        good += 1
+                    else:
+                        _i, bo, sg, whole = got
+                        why = "signed: every value with the top bit set (port >= 32768, watermark >= 2**31, an IPv4 number >= 128.0.0.0) comes out negative" if sg else \
+                            "wrong byte order" if bo != "big" else f"not over all {width} bytes of the value"
+                        (unsure if p.imprecise else bad).append(f"{case}: decoded as a {'signed' if sg else 'unsigned'} {bo}-endian integer{'' if whole else ' of a part of the bytes'} ({why})")
+        if bad:
+            ctx.ob("R12", "AGREE", f, text, False, bad[0], f.node)
+        elif unsure or not good:
+            ctx.undecided("R12", "AGREE", f, text, unsure[0] if unsure else "no path that stores a value for the record was found", f.node)
+        else:
+            ctx.ob("R12", "AGREE", f, text, True, f"holds for the value stored / handed to the pretty function on all {good} evaluated paths (parse and / or pretty on)", f.node)
+    # (never vacuous: without a located stored value the obligations above are undecided, so no floor error when nothing was found)
+    ctx.rep.count("settings_map_values", n_paths, floor=6 if n_paths else None)
